@@ -3,7 +3,6 @@
 use std::collections::HashMap;
 
 use serde_json::json;
-use simfony::parse::ParseFromStr;
 use simfony::{ResolvedType, Value};
 
 use crate::checks::common::*;
